@@ -79,6 +79,9 @@ pub fn run_check(id: &str, report: &mut Report, budget: Duration) -> bool {
             let n = e4::run_abandoned_reader(report);
             report.add("traces_validated_against_impl", n);
             report.set("real_transport_abandoned_reader_cases", n);
+            let n = e4::run_close_future_dropped(report);
+            report.add("traces_validated_against_impl", n);
+            report.set("real_transport_close_future_dropped_cases", n);
             let n = e3::close_future_dropped(report);
             report.add("traces_validated_against_impl", n);
             report.set("close_future_dropped_cases", n);
